@@ -662,6 +662,20 @@ fn run_scenario(sc: &J) -> J {
             }
             continue;
         }
+        if kind == "setloader" {
+            // the host installs its module loader again in the middle of a session (e.g. after adding a search path)
+            let r = panic::catch_unwind(panic::AssertUnwindSafe(|| vm.set_module_loader(loader)));
+            let events = SIM.with(|s| std::mem::take(&mut s.borrow_mut().events));
+            match r {
+                Ok(_) => outs.push(json!({"events": events, "outcome": {"setloader": true}})),
+                Err(p) => {
+                    outs.push(json!({"events": events, "outcome": {"panic": panic_msg(p)}}));
+                    std::mem::forget(vm);
+                    return finish(sc, outs);
+                }
+            }
+            continue;
+        }
         if kind == "compile" {
             // the host compiles a program now and keeps the function (a Root) to execute it later
             let src = p.get("source").and_then(|k| k.as_str()).unwrap_or("").to_string();
